@@ -937,7 +937,7 @@ var c17Danger = map[string][]string{
 
 // safe stress names: Go keywords, predeclared identifiers and names that look like generated ones but are not
 var c17Odd = []string{"Func", "Type", "Var", "Const", "Range", "Select", "Chan", "Map", "Int", "String", "Error", "Nil", "True", "Len", "Append",
-	"Init", "Next", "Copy", "Pos", "Line", "Text", "Value", "Symbol", "StackEntry", "Session", "Token", "Rule", "State", "Tables"}
+	"Init", "Next", "Copy", "Pos", "Line", "Text", "Value", "Symbol", "StackEntry", "Session", "Rule", "State", "Tables"}
 var c17OddTokens = []string{"func", "type", "var", "range", "select", "chan", "map", "int", "string", "error", "nil", "len", "init", "main", "token", "Type", "String", "NumTokens", "tokenStr"}
 
 func c17(c *Ctx) {
@@ -945,13 +945,13 @@ func c17(c *Ctx) {
 	if repo == "" {
 		repo = "/repo"
 	}
-	c.Rule = "probes: one witness grammar per known class of build failures (4 guard-level classes listed in the Lean expectation table, 4 symbol-name collision classes); " +
+	c.Rule = "probes: one witness grammar per known class of build failures (" + fmt.Sprint(len(c17Classes)) + " classes: guard-level ones listed in the Lean expectation table, type-level template defects, go vet complaints, symbol-name collisions); " +
 		"sweep: skeleton grammars (statement/expression language; lexer features: class rule + keywords, typed token, unicode classes beyond U+0800, backtracking, start conditions, space/comment tokens, invalid_token, lexer code; " +
-		"parser features: error recovery, recoveryScope marker, %inject, lookahead predicates, lalr(2), typed nonterminals with semantic actions, mid-rule actions, several inputs, no-eoi inputs, named sets, %interface categories, state markers, lists with separators, optionals, inner arrows, precedence, template flags) " +
-		"and random CFGs with rule arrows, under feature/option vectors chosen greedily for pairwise coverage of " + fmt.Sprint(len(c17Bools)) + " Boolean dimensions (eventBased/eventFields/eventAST/genSelector/fileNode/tokenStream/fixWhitespace/cancellable(+Fetch)/recursiveLookaheads/optimizeTables/defaultReduce/minimizeDFA/writeBison/debugParser/tokenLine/tokenLineOffset/tokenColumn/scanBytes/nonBacktracking/skipByteOrderMark/caseInsensitive/nodePrefix/extraTypes and the features above), normalised by the dependencies the compiler enforces; " +
-		"stress stream: Go keywords, predeclared identifiers and generated-looking names as token, nonterminal, node-type, set and marker names (names of a collision class only once its probe builds). " +
-		"Each grammar: compiler.Compile + gen.Generate in a child process, all packages in one scratch module, go build ./... and go vet ./...; non-trivial = a package that was generated and compiled by the Go compiler; distinct by grammar text. " +
-		"Classes whose probe still fails are reported once (stable token) and avoided by the random stream: eventBased is forced on for grammars with a parser while [C17-ruletype-nodetype] is present, tokenStream off without eventBased while [C17-stream-without-types] is, genSelector on with eventAST while [C17-ast-without-selector] is; flags (`-> T/Flag`) are never generated (they need user-supplied constants)."
+		"parser features: error recovery, recoveryScope marker, %inject, lookahead predicates, lalr(2), typed nonterminals with semantic actions and aliases, mid-rule actions, several inputs, no-eoi inputs, named sets, %interface categories, state markers, lists with separators, optionals, inner arrows, precedence, template flags) " +
+		"and random CFGs (gram.go RandGram) with rule arrows, under feature/option vectors chosen greedily for pairwise coverage of " + fmt.Sprint(len(c17Bools)) + " Boolean dimensions (eventBased/eventFields/eventAST/genSelector/fileNode/tokenStream/fixWhitespace/cancellable(+Fetch)/recursiveLookaheads/optimizeTables/defaultReduce/minimizeDFA/writeBison/debugParser/tokenLine/tokenLineOffset/tokenColumn/scanBytes/nonBacktracking/skipByteOrderMark/caseInsensitive/nodePrefix/extraTypes and the features above), normalised by the dependencies the compiler enforces; " +
+		"stress stream: Go keywords, predeclared identifiers and generated-looking names as token, node-type, set and marker names (names of a collision class only once its probe builds). " +
+		"Each grammar: compiler.Compile + gen.Generate in a child process (a crash is a finding), all packages in one scratch module, go build ./... and go vet ./...; the trusted implications of the Lean table are evaluated on every compiled grammar; non-trivial = a package that was generated and compiled by the Go compiler; distinct by grammar text. " +
+		"A class whose probe still fails is reported once (stable token) and avoided by the random stream (see `classes_present`): eventBased forced on for grammars with a parser while [C17-ruletype-nodetype] is present, tokenStream off without eventBased ([C17-stream-without-types]), genSelector on with eventAST ([C17-ast-without-selector]), tokenLine kept with tokenStream ([C17-stream-tokenline]), cancellableFetch off with tokenStream + lookahead ([C17-stream-cancellablefetch]), nodePrefix off ([C17-nodeprefix]), template flags off with typed nonterminals ([C17-typed-ref-after-instantiate]), the two known go vet messages filtered; flags (`-> T/Flag`) are never generated (they need user-supplied constants); semantic-action reference errors reported by gen.Generate are counted, not reported (C16)."
 
 	c17LeanTie(c, repo)
 
